@@ -167,7 +167,7 @@ func runBatch(t hx.TB, b batch) {
 	if err != nil {
 		t.Fatalf("provision wrapper: %v", err)
 	}
-	base, err := net.Listen("tcp", "127.0.0.1:0")
+	base, err := hx.Listen("tcp", "127.0.0.1:0")
 	if err != nil {
 		t.Fatalf("listen: %v", err)
 	}
@@ -222,7 +222,7 @@ func runBatch(t hx.TB, b batch) {
 		go func() {
 			defer clients.Done()
 			k := kinds[cp.Kind]
-			raw, err := net.Dial("tcp", base.Addr().String())
+			raw, err := hx.Dial("tcp", base.Addr().String())
 			if err != nil {
 				results[i].err = "dial: " + err.Error() // the listener may already be closed (early close)
 				results[i].sawClose = true
